@@ -128,6 +128,15 @@ CHECKS = {
              "Elias code lengths, block count, last-block size) or from the stream header (PFOR width byte, adaptive "
              "type byte, bytes written).",
         ref="DESIGN.md 4/C16", technique="TLA+ ground-truth functions (Limbs/StoreTrace) + trace validation of reported metadata"),
+    "C18": dict(
+        text="AllocModel.tla explores object lifetimes with a fault at every allocation step of every call and checks "
+             "no-leak/consistency on the recovery discipline (dropping the release step is the negative control). The "
+             "allocator shim counts the allocations A of each real call and repeats it with allocation k = 1..A failing, "
+             "for 26 codec entry points x 5 inputs and 23 bitmap scenarios; AllocTrace.tla accepts only: no crash, no "
+             "leak, and either the documented failure indication with pre-existing objects unchanged or a fully correct "
+             "result (codec output must decode to the input; the bitmap must equal the abstract set, which the spec "
+             "carries as state through the follow-up operations).",
+        ref="DESIGN.md 4/C18", technique="TLA+ lifetime model (TLC) + exhaustive single-fault enumeration per call via allocator shim + stateful TLC trace validation"),
 }
 
 
@@ -142,7 +151,7 @@ def main():
             "evidence_file": "evidence/%s.json" % pid,
             "replay_cmd_template": "./check %s --replay {path}" % pid,
             "engine": "tlc-trace-validation",
-            "level_claimed": {"category": "model_checking", "text": c["text"], "design_ref": c["ref"]},
+            "level_claimed": {"category": "fault_enumeration" if pid == "C18" else "model_checking", "text": c["text"], "design_ref": c["ref"]},
             "level_note": COMMON_NOTE,
             "technique": c["technique"],
         })
